@@ -84,6 +84,9 @@ const TOTAL: usize = ARENA_BYTES + 2 * GUARD;
 
 /// The callers' buffer memory with a shadow copy (both include the guard zones).
 pub struct Arena {
+    /// strict mode: no canary zones; the arena sits between two inaccessible pages, so that any
+    /// access past either end (reads included) kills the process at the offending instruction
+    strict: bool,
     raw: *mut u8,
     /// shadow of the arena proper (public offsets)
     pub shadow: Vec<u8>,
@@ -101,14 +104,43 @@ impl Arena {
         Layout::from_size_align(TOTAL, 64).unwrap()
     }
     pub fn new() -> Self {
+        Self::with_mode(false)
+    }
+
+    #[cfg(all(unix, not(miri)))]
+    fn map_strict() -> *mut u8 {
+        unsafe {
+            let p = libc::mmap(core::ptr::null_mut(), TOTAL, libc::PROT_READ | libc::PROT_WRITE, libc::MAP_PRIVATE | libc::MAP_ANONYMOUS, -1, 0);
+            assert!(p != libc::MAP_FAILED, "mmap");
+            let p = p as *mut u8;
+            assert_eq!(libc::mprotect(p as *mut _, GUARD, libc::PROT_NONE), 0);
+            assert_eq!(libc::mprotect(p.add(GUARD + ARENA_BYTES) as *mut _, GUARD, libc::PROT_NONE), 0);
+            p
+        }
+    }
+
+    pub fn with_mode(strict: bool) -> Self {
+        #[cfg(all(unix, not(miri)))]
+        if strict {
+            assert!(GUARD % 4096 == 0 && ARENA_BYTES % 4096 == 0);
+            return Arena { strict: true, raw: Self::map_strict(), shadow: vec![0u8; ARENA_BYTES], guard_shadow: Vec::new() };
+        }
+        let _ = strict;
         let raw = unsafe { alloc_zeroed(Self::layout()) };
         assert!(!raw.is_null());
-        Arena { raw, shadow: vec![0u8; ARENA_BYTES], guard_shadow: vec![0u8; 2 * GUARD] }
+        Arena { strict: false, raw, shadow: vec![0u8; ARENA_BYTES], guard_shadow: vec![0u8; 2 * GUARD] }
+    }
+    pub fn is_strict(&self) -> bool {
+        self.strict
     }
     /// fill arena, guards and shadows with canary bytes
     pub fn fill(&mut self, f: &mut dyn FnMut(&mut [u8])) {
         f(&mut self.shadow);
-        f(&mut self.guard_shadow);
+        let mut g = vec![0u8; 2 * GUARD];
+        f(&mut g);
+        if !self.strict {
+            self.guard_shadow = g;
+        }
         self.restore();
     }
     #[inline]
@@ -131,6 +163,19 @@ impl Arena {
     /// first position outside `[off, off+len)` where memory differs from its shadow:
     /// (offset relative to the arena start — negative or >= ARENA_BYTES inside a guard zone —, expected, actual)
     pub fn diff_outside(&self, off: usize, len: usize) -> Option<(i64, u8, u8)> {
+        if self.strict {
+            let a = unsafe { core::slice::from_raw_parts(self.raw.add(GUARD) as *const u8, ARENA_BYTES) };
+            if a[..off] != self.shadow[..off] {
+                let i = (0..off).find(|&i| a[i] != self.shadow[i]).unwrap();
+                return Some((i as i64, self.shadow[i], a[i]));
+            }
+            let e = off + len;
+            if a[e..] != self.shadow[e..] {
+                let i = (e..ARENA_BYTES).find(|&i| a[i] != self.shadow[i]).unwrap();
+                return Some((i as i64, self.shadow[i], a[i]));
+            }
+            return None;
+        }
         let all = unsafe { core::slice::from_raw_parts(self.raw as *const u8, TOTAL) };
         let (front, rest) = all.split_at(GUARD);
         let (a, back) = rest.split_at(ARENA_BYTES);
@@ -155,6 +200,10 @@ impl Arena {
     }
     /// restore arena and guards from the shadows
     pub fn restore(&mut self) {
+        if self.strict {
+            unsafe { core::ptr::copy_nonoverlapping(self.shadow.as_ptr(), self.raw.add(GUARD), ARENA_BYTES) };
+            return;
+        }
         unsafe {
             core::ptr::copy_nonoverlapping(self.guard_shadow.as_ptr(), self.raw, GUARD);
             core::ptr::copy_nonoverlapping(self.shadow.as_ptr(), self.raw.add(GUARD), ARENA_BYTES);
@@ -168,6 +217,11 @@ impl Arena {
 
 impl Drop for Arena {
     fn drop(&mut self) {
+        #[cfg(all(unix, not(miri)))]
+        if self.strict {
+            unsafe { libc::munmap(self.raw as *mut _, TOTAL) };
+            return;
+        }
         unsafe { dealloc(self.raw, Self::layout()) };
     }
 }
